@@ -501,7 +501,10 @@ func run(prop string) int {
 	startAll := time.Now()
 	end := startAll.Add(total)
 	co := &coord{tier: tier, boxes: boxesFor(tier), rep: ev.NewReport(prop, "model_checking"), found: map[string]*found{}}
-	co.pool = &pool.Pool{Handler: "raftmc", N: nWorkers(), Timeout: 60 * time.Second, MemMB: 4096}
+	// Timeout: longest silence of a worker before it is declared hung - a wall-clock verdict, so far above
+	// anything a busy machine does to one expansion step (60 s produced "worker hang" harness errors in
+	// a thorough run that shared the cores with another check)
+	co.pool = &pool.Pool{Handler: "raftmc", N: nWorkers(), Timeout: 5 * time.Minute, MemMB: 4096}
 	only := os.Getenv("RAFTMC_ONLY") // debugging aid: comma separated box ids
 	remaining := 0
 	for _, b := range co.boxes {
